@@ -32,6 +32,14 @@ macro_rules! stamped_no_deps {
 }
 stamped_no_deps!(Combine, CombineMock, combine, factor);
 stamped_no_deps!(Combine2, Combine2Mock, combine2, other);
+macro_rules! stamped_deps {
+    ($Tr:ident, $Mock:ident, $name:ident, $extra:ident) => {
+        #[entrait($Tr, mock_api = $Mock, unimock = true, export)]
+        fn $name(deps: &impl std::any::Any, factor: i32, $extra: i32) -> i32 { let _ = deps; factor * 100 + $extra }
+    };
+}
+stamped_deps!(CombineD, CombineDMock, combine_d, factor);
+
 #[entrait_export(mock_api = TrMock, unimock = true)]
 pub trait Tr { fn tr(&self, a: i32, b: i32) -> i32; }
 
@@ -59,8 +67,9 @@ fn main() {
     expect!("unmocked.stamped.same_spelling", u.combine(1, 2), Impl::new(()).combine(1, 2));
     expect!("unmocked.stamped.same_spelling.value", u.combine(1, 2), 12);
     expect!("unmocked.stamped", u.combine2(3, 4), 34);
+    expect!("unmocked.stamped.deps", u.combine_d(5, 6), 506);
     let u = Unimock::new(CombineMock.next_call(matching!(1, 2)).returns(9));
     expect!("mocked.stamped", u.combine(1, 2), 9);
-    println!("C11-PROBE cases=12 failed={bad}");
+    println!("C11-PROBE cases=13 failed={bad}");
     std::process::exit(if bad == 0 { 0 } else { 1 });
 }
